@@ -42,12 +42,12 @@ LEVEL = "exploration"
 ANCHORS = ["docstrings/google.py", "docstrings/numpy.py", "docstrings/sphinx.py", "docstrings/parsers.py", "docstrings/utils.py"]
 RULE = ("texts assembled from a token pool (all Google/Numpy section keywords and Sphinx field names in 6 letter-case variants, "
         "admonition titles, 10 Google header forms, dash lines of length 1..40 and malformed ones, 16/14/14 Google/Numpy/Sphinx item "
-        "forms over 33 names (empty, starred, dotted, unicode) x 51 types (empty, unbalanced, non-expressions), indentation 0..12, "
+        "forms over 41 names (empty, starred, dotted, unicode, names the parents import) x 49 types (empty, unbalanced, non-expressions), indentation 0..12, "
         "blank / whitespace-only lines, prose, code fences, doctest prompts, tabs, CR/FF/VT/LS characters, lines of 1200-5000 "
         "characters) as 0..8 chunks (20..60 in 'big' cases) followed by random line mutations (duplicate, delete, re-indent, swap, "
         "shuffle a window); each text is parsed by all three parsers under random members of the full boolean option space "
         "(2^8 Google, 2^3 Numpy, 2^1 Sphinx, sometimes an unknown extra option or no options) through 6 entry routes with one of "
-        "50 parents (none, modules, classes incl. a subclass, functions with varied signatures, return annotations "
+        "51 parents (none, modules, classes incl. a subclass and one with an unresolvable base, functions with varied signatures, return annotations "
         "tuple/Iterator/Generator of arity 0..3, __init__ methods, properties, attributes; visited from source or built through "
         "the model API with string annotations, no file path, or no parent module); a quarter of the texts come from the "
         "prose-only sub-pool. distinct = digest of the text; non-trivial = the text contains a section keyword / field name "
@@ -68,12 +68,17 @@ REQUIRED_COUNTERS = ["parses_completed", "main_loop_header_events", "inner_loop_
 EXHAUSTIVE = {"quick": False, "thorough": False}
 ASSUMPTIONS = ["texts are sampled from the token-pool grammar described in the rule; the space of all strings is not covered",
                "step budget: function entries in _griffe <= STEP_FACTOR*(lines+10)^2 + STEP_PER_CHAR*len(text) (the second term "
-               "covers the expression builder, whose work is proportional to the length of an annotation, not to the line count)",
+               "covers work that is proportional to the length of a line rather than to the line count: the expression builder on a long "
+               "annotation, one signature lookup per name of a long 'a, b, c : T' item)",
                "parents come from 3 literal modules visited statically and one module built through the model API (no inspected / alias parents)"]
 SHARD_TIMEOUT = {"quick": 900, "thorough": 7200}
 
-STEP_FACTOR = 40          # calibrated: observed max of steps/(lines+10)^2 is reported as observed_maxima.steps_over_quadratic
-STEP_PER_CHAR = 12
+# Calibration (thorough tier, 6e6 parses): the largest steps/(lines+10)^2 seen on texts without a very long line was ~7; the
+# largest steps/len(text) was 58 (a Numpy item naming 800 parameters 'a, a, a, ... : T' under a class parent: every name costs a
+# Class.parameters lookup of ~200 function entries).  The factors leave a margin of about 7x on both terms; the observed
+# maximum of steps/budget is reported as observed_maxima.steps_over_budget.
+STEP_FACTOR = 60
+STEP_PER_CHAR = 400
 TEXTS = {"quick": 20_000, "thorough": 1_000_000}
 NSHARDS = 16
 STYLES = ("google", "numpy", "sphinx")
